@@ -218,3 +218,11 @@ pub fn format(case: &Value) -> Value {
     }
     json!({"ndiag": 0, "formatted": crate::string_to_cps(&out), "ndiag2": d2.len(), "same_tokens": same_tokens, "same_comments": same_comments})
 }
+
+/// {"names": [[bytes],[bytes]], "ext": bool, "schedule": [thread...]} -> ids
+pub fn intern_schedule(case: &Value) -> Value {
+    let names: Vec<Vec<u8>> = case["names"].as_array().unwrap().iter().map(|n| n.as_array().unwrap().iter().map(|b| b.as_u64().unwrap() as u8).collect()).collect();
+    let schedule: Vec<usize> = case["schedule"].as_array().unwrap().iter().map(|t| t.as_u64().unwrap() as usize).collect();
+    let ids = vh::intern_schedule([&names[0], &names[1]], case["ext"].as_bool().unwrap(), &schedule);
+    json!({"ids": ids})
+}
